@@ -214,6 +214,11 @@ def run(ctx):
     ctx.cov["rule"] = ("cells = (groupby_reduce | groupby_scan | xarray_reduce) x 13 functions x method x engine x reindex x numpy|dask labels x expected_groups x 6 layouts, "
                        "inputs wrapped in evaluation probes; non-trivial = distinct accepted cell")
     ctx.assumptions += ["object-dtype labels are outside the property's scope and not exercised"]
+    # FloxScan.tla behaviours replayed into groupby_scan: the result is lazy exactly when the array is chunked (pass-through and
+    # single-member shortcut included) and no task runs while the graph is being built (dask callback spy)
+    from . import composescan
+
+    composescan.replay(ctx, {"scan:lazy"}, n=600 if ctx.tier == "quick" else 12000, report_others=False)
 
 
 def replay(ctx, payload):
